@@ -20,9 +20,11 @@ type TodoExpect struct {
 	Tight    bool // marker directly after the comment marker
 	Multi    bool
 	Optional bool // may be reported or not (unterminated `/* TODO` at end of file)
-	Assignee string
-	Message  string
-	Src      string
+	// MarkerLineOffset: line breaks between the block opener and the marker word (the comment starts at the opener)
+	MarkerLineOffset int
+	Assignee         string
+	Message          string
+	Src              string
 }
 
 // TodoDecoy is something in a selected file that must not be reported.
@@ -163,7 +165,11 @@ func CheckTodos(t *TodoTruth, observed []TodoEntry) ([]TodoMismatch, int) {
 				}
 				used[i] = true
 				hit = true
-				add("wrong-line/"+e.Kind+"/"+todoMulti(e.Multi), "%s: comment %q starts at line %d, reported at line %d", e.File, e.Src, e.Line, ob.Line)
+				sig := "wrong-line/" + e.Kind + "/" + todoMulti(e.Multi)
+				if e.MarkerLineOffset > 0 {
+					sig = "wrong-line/" + e.Kind + "/opener-alone"
+				}
+				add(sig, "%s: comment %q starts at line %d, reported at line %d", e.File, e.Src, e.Line, ob.Line)
 				break
 			}
 		}
@@ -227,7 +233,7 @@ func CheckTodos(t *TodoTruth, observed []TodoEntry) ([]TodoMismatch, int) {
 
 // Marker returns the marker word as written (for messages only).
 func (e TodoExpect) Marker() string {
-	s := strings.TrimLeft(e.Src, "/*# \t")
+	s := strings.TrimLeft(e.Src, "/*# \t\r\n")
 	for i, r := range s {
 		if !(r >= 'a' && r <= 'z' || r >= 'A' && r <= 'Z') {
 			return s[:i]
